@@ -455,3 +455,80 @@ func c12Scenarios(thorough bool) []*scenario {
 	}
 	return out
 }
+
+
+// ---------------------------------------------------------------------------
+// C13: configuration updates (identical, rejected of every kind, valid changes) at every request boundary
+
+func c13Scenarios(thorough bool) []*scenario {
+	var out []*scenario
+	add := func(name, pol string, m *sysgen.Spec, cfgs []cfgSpec, ps []podSpec, mn menu) *scenario {
+		s := &scenario{name: name, policy: pol, machine: m, cfgs: cfgs, pods: ps, menu: mn, depth: 4, maxInc: 1}
+		if thorough {
+			s.depth = 5
+		}
+		s.prefix = runAll(len(ps))
+		for i := range cfgs {
+			s.menu.reconf = append(s.menu.reconf, i)
+		}
+		out = append(out, s)
+		return s
+	}
+	ks := pod1("ks", "kube-system", "Burstable", tB200, nil)
+	taCfgs := []cfgSpec{
+		taCfg("base"),
+		taCfg("reserved-cpuset", taReserved("cpuset:0,8")),
+		taCfg("available-shrunk", taAvailable("cpuset:0-11")),
+		taCfg("bad-available-cpuset", taAvailable("cpuset:0-x")),
+		taCfg("reserved-outside-available", taAvailable("cpuset:0-11"), taReserved("cpuset:15")),
+		taCfg("no-reservation", taNoReserved()),
+		taCfg("unsatisfiable-capacity", taAvailable("cpuset:0-1")),
+	}
+	add("ta/reconf/G2-B500-KS", polTA, machine16(), taCfgs, append(pods(tG2, tB500), ks), menu{stop: true})
+	add("ta/reconf/G4-G1500-BE", polTA, machine16(), taCfgs, pods(tG4, tG1500, tBE), menu{stop: true})
+	taCfgs2 := []cfgSpec{
+		taCfg("base"),
+		taCfg("prefer-shared", taPreferShared(true)),
+		taCfg("pin-off", taPin(false, false)),
+		taCfg("reserved-ns", taReservedNS("kube-*", "mon*")),
+		taCfg("bad-reserved-cpuset", taReserved("cpuset:a-b")),
+		taCfg("available-as-quantity", taAvailable("4")),
+	}
+	add("ta/reconf/options/G2-M3G-KS", polTA, machine8(), taCfgs2, append(pods(tG2, tM3G), ks), menu{stop: true, remove: true})
+	// balloons
+	base := []*blcfg.BalloonDef{
+		{Name: "a", Namespaces: []string{"a"}, MinCpus: 1, MaxCpus: 4, MinBalloons: 1, ShareIdleCpusInSame: blcfg.CPUTopologyLevelSystem},
+		{Name: "b", Namespaces: []string{"b"}, MaxCpus: 2, PreferNewBalloons: true},
+	}
+	grown := []*blcfg.BalloonDef{
+		{Name: "a", Namespaces: []string{"a"}, MinCpus: 2, MaxCpus: 4, MinBalloons: 1, ShareIdleCpusInSame: blcfg.CPUTopologyLevelSystem},
+		{Name: "b", Namespaces: []string{"b"}, MaxCpus: 2, PreferNewBalloons: true},
+	}
+	dup := []*blcfg.BalloonDef{{Name: "a", Namespaces: []string{"a"}}, {Name: "a", Namespaces: []string{"b"}}}
+	illBounded := []*blcfg.BalloonDef{{Name: "a", Namespaces: []string{"a"}, MinCpus: 3, MaxCpus: 2}, {Name: "b", Namespaces: []string{"b"}}}
+	illInst := []*blcfg.BalloonDef{{Name: "a", Namespaces: []string{"a"}, MinBalloons: 3, MaxBalloons: 2}, {Name: "b", Namespaces: []string{"b"}}}
+	noLoad := []*blcfg.BalloonDef{{Name: "a", Namespaces: []string{"a"}, Loads: []string{"membw"}}, {Name: "b", Namespaces: []string{"b"}}}
+	tooBig := []*blcfg.BalloonDef{{Name: "a", Namespaces: []string{"a"}, MinCpus: 6, MinBalloons: 3}, {Name: "b", Namespaces: []string{"b"}}}
+	blCfgs := []cfgSpec{
+		blCfg("base", base),
+		blCfg("minCPUs-grown", grown),
+		blCfg("duplicate-types", dup),
+		blCfg("minCPUs>maxCPUs", illBounded),
+		blCfg("minBalloons>maxBalloons", illInst),
+		blCfg("undefined-load-class", noLoad),
+		blCfg("unsatisfiable-capacity", tooBig),
+		blCfg("reserved-outside-available", base, blAvailable("cpuset:0-11"), blReserved("cpuset:15")),
+		blCfg("bad-available-cpuset", base, blAvailable("cpuset:0-x")),
+	}
+	add("bl/reconf/G2-B500-KS", polBalloons, machine16(), blCfgs,
+		[]podSpec{nsPod("x", "a", tG2, nil), nsPod("y", "b", tB500, nil), nsPod("ks", "kube-system", tB200, nil)}, menu{stop: true})
+	blCfgs2 := []cfgSpec{
+		blCfg("base", base, blIdleClass("idle")),
+		blCfg("classes-only", base, blIdleClass("lazy")),
+		blCfg("available-shrunk", base, blAvailable("cpuset:0-11"), blIdleClass("idle")),
+		blCfg("pin-off", base, blPin(false, false), blIdleClass("idle")),
+	}
+	add("bl/reconf/options/G1-G1-BE", polBalloons, machine16(), blCfgs2,
+		[]podSpec{nsPod("x", "a", tG1, nil), nsPod("y", "b", tG1, nil), nsPod("z", "default", tBE, nil)}, menu{stop: true, remove: true})
+	return out
+}
